@@ -113,12 +113,12 @@ def parse_file(path):
                 cur = Fn(name, split_top(params), ret)
                 fns.setdefault(name, []).append(cur); bb = None
                 continue
-            mc = re.match(r'^(?:const|static) (.*?): (.*) = \{$', line)
+            mc = re.match(r'^(?:const|static) (?:mut )?(.*): (.*?) = \{$', line)
             if mc:
                 cur = Fn(mc.group(1), [], mc.group(2))
                 fns.setdefault(cur.name, []).append(cur); bb = None
                 continue
-            mc = re.match(r'^const (.*?): (.*) = const (.*);$', line)
+            mc = re.match(r'^const (.*): (.*?) = const (.*);$', line)
             if mc:
                 consts[mc.group(1)] = mc.group(3); continue
             if line == '}': cur = None
